@@ -91,6 +91,39 @@ def big_scenario(rng, n=70):
     return sc
 
 
+def huge_scenario(rng, n=1300):
+    """Two large trees that are nearly in sync (beyond 1024 entries nearly everything queued is taken off the lists again),
+    with nested entries that only one side has, listed late: a destination-only chain to delete, a source-only chain to create."""
+    sc = sync_e2e.Scenario()
+    sc.cfg = {'newer': 'A', 'older': 'A', 'same': 'S', 'entry': 'A', 'root': 'A'}
+    sc.outside = {'': {'k': 'dir'}}
+    t = {'': {'k': 'dir'}}
+    dirs = ['']
+    i = 0
+    while len(t) < n:
+        i += 1
+        par = rng.choice(dirs)
+        if par.count('/') >= 2:
+            continue
+        p = (par + '/' if par else '') + 'e%04d' % i
+        if rng.random() < 0.04:
+            t[p] = {'k': 'dir'}
+            dirs.append(p)
+        else:
+            t[p] = {'k': 'file', 'data': b'd%d' % i, 'mtime_ns': sync_e2e.T0 + i}
+    src = dict(t)
+    dest = {k: dict(v) for k, v in t.items()}
+    for chain, tree in (('zold', dest), ('znew', src)):
+        p = chain
+        tree[p] = {'k': 'dir'}
+        for d in ('a', 'b', 'c'):
+            p = p + '/' + d
+            tree[p] = {'k': 'dir'}
+            tree[p + '/f.txt'] = {'k': 'file', 'data': b'leaf', 'mtime_ns': sync_e2e.T0 + 7}
+    sc.src, sc.dest = src, dest
+    return sc
+
+
 def check(run):
     run.trusted = list(vlib.COMMON_TRUSTED) + [
         'crossbeam channel FIFO + select (the scripted doers keep one listing message in flight to force an interleaving)',
@@ -138,6 +171,22 @@ def check(run):
             rng.shuffle(s)
             reqs.append((sc, ls, ld, ''.join(s), 'large%d' % g))
         run.count('large-groups')
+    for g in range(2 if quick else 24):                # beyond 1024 entries, nearly in sync, one listing well ahead of the other
+        sc = huge_scenario(rng, rng.choice([1100, 1300, 2300]))
+        ls0 = scripted.model_listing(jbin, sc.src)
+        ld0 = scripted.model_listing(jbin, sc.dest)
+        for mode in ('dest-first', 'src-first', 'mixed'):
+            ls = scripted.random_parents_first(rng, ls0) if mode == 'mixed' else ls0
+            ld = scripted.random_parents_first(rng, ld0) if mode == 'mixed' else ld0
+            if mode == 'dest-first':
+                s = ['D'] * len(ld) + ['S'] * len(ls)
+            elif mode == 'src-first':
+                s = ['S'] * len(ls) + ['D'] * len(ld)
+            else:
+                s = ['S'] * len(ls) + ['D'] * len(ld)
+                rng.shuffle(s)
+            reqs.append((sc, ls, ld, ''.join(s), 'huge%d' % g))
+        run.count('huge-groups')
     hl = [scripted.harness_line(sc, ls, ld, sched) for sc, ls, ld, sched, _ in reqs]
     ml = [scripted.model_line(sc, ls, ld, sched) for sc, ls, ld, sched, _ in reqs]
     impl = scripted.run_batch(binary, hl, timeout=900)
